@@ -281,7 +281,8 @@ impl<'a> Ix<'a> {
     }
     /// the actor runs no hook that never finishes (parked script), as far as this trace shows
     pub fn hook_stuck(&self, a: usize) -> bool {
-        self.actors[a].in_progress(self.tr.len()).is_some()
+        // an on_run in progress does not keep the loop from taking messages or ending
+        matches!(self.actors[a].in_progress(self.tr.len()), Some((h, _, _)) if h != Hook::OnRun)
     }
     pub fn msg_spec(&self, id: u32) -> Option<MsgSpec> {
         fn find(steps: &[Step], id: u32) -> Option<MsgSpec> {
